@@ -131,7 +131,7 @@ impl<'a> Run<'a> {
         let res = self.w.scan(&self.chain, from, limit);
         let (c, e) = res_class(&res);
         let post = self.post();
-        self.out.emit(&json!({"a": "scan", "from": self.w.rel(from), "n": limit, "res": c, "err": e, "post": post}));
+        self.out.emit(&json!({"a": "scan", "client": false, "from": self.w.rel(from), "n": limit, "res": c, "err": e, "post": post}));
         self.aborted |= c == "panic";
         c == "ok"
     }
@@ -191,6 +191,88 @@ impl<'a> Run<'a> {
                 self.out.emit(&json!({"a": "freshfail", "r1": format!("{r1:?}"), "r2": format!("{r2:?}")}));
             }
         }
+    }
+
+    // ---------------------------------------------------------------------------------------
+    // the documented sync client (data_api/chain.rs module docs): learn the tip, then repeatedly take
+    // the first suggested range and scan a chunk of it, until nothing is suggested
+
+    pub fn suggest(&mut self) -> Vec<(u32, u32, i64)> {
+        use zcash_client_backend::data_api::WalletRead;
+        let ranges = self.w.st.wallet().suggest_scan_ranges().unwrap();
+        let v: Vec<(u32, u32, i64)> = ranges
+            .iter()
+            .map(|r| {
+                use zcash_client_backend::data_api::scanning::ScanPriority::*;
+                let p = match r.priority() { Ignored => 0, Scanned => 1, Historic => 2, OpenAdjacent => 3, FoundNote => 4, ChainTip => 5, Verify => 6 };
+                (u32::from(r.block_range().start), u32::from(r.block_range().end), p)
+            })
+            .collect();
+        let post = self.post();
+        let rel: Vec<Value> = v.iter().map(|(s, e, p)| json!([self.w.rel(*s), self.w.rel(*e), p])).collect();
+        self.out.emit(&json!({"a": "suggest", "ranges": rel, "post": post}));
+        v
+    }
+
+    /// Plays the client until it has nothing left to do; the environment interferes a bounded number of
+    /// times (new blocks, rewinds with a different continuation). Emits a final `syncdone` event with
+    /// the number of client scan steps taken.
+    pub fn sync_loop(&mut self, mut env_budget: u32) {
+        let mut steps = 0u32;
+        let mut scanned_blocks = 0u64;
+        self.tip_top();
+        // generous bound: every client step must scan at least one unscanned block
+        for _ in 0..20_000 {
+            if self.aborted {
+                return;
+            }
+            let ranges = self.suggest();
+            let Some((s, e, _)) = ranges.first().copied() else { break };
+            // a chunk from the start of the first suggested range
+            let len = (e - s) as usize;
+            let limit = match self.rng.gen_range(0..4) { 0 => 1, 1 => len.min(self.rng.gen_range(1..8)), 2 => len.min(40), _ => len };
+            let top = self.chain.top();
+            if s > top {
+                break; // the wallet suggests blocks the chain does not have: reported by the trace spec (no progress)
+            }
+            if !self.scan_client(s, limit) {
+                break;
+            }
+            steps += 1;
+            scanned_blocks += limit as u64;
+            if env_budget > 0 && self.rng.gen_bool(0.15) {
+                env_budget -= 1;
+                if self.rng.gen_bool(0.6) {
+                    let mut taken = vec![];
+                    let txs: Vec<TxReq> = (0..self.rng.gen_range(0..2)).map(|_| self.random_tx(&mut taken)).collect();
+                    self.block(&txs, &[], true);
+                    let k = self.rng.gen_range(0..3);
+                    self.empties(k);
+                } else {
+                    let top = self.chain.top();
+                    let req = top.saturating_sub(self.rng.gen_range(0..4)).max(self.chain.base + 1);
+                    if self.trunc(req, true).is_some() {
+                        let mut taken = vec![];
+                        let txs: Vec<TxReq> = vec![self.random_tx(&mut taken)];
+                        self.block(&txs, &[], true);
+                        self.empties(2);
+                    }
+                }
+                self.tip_top();
+            }
+        }
+        let post = self.post();
+        self.out.emit(&json!({"a": "syncdone", "steps": steps, "blocks": scanned_blocks, "post": post}));
+    }
+
+    /// a scan made by the sync client (must make progress: see the trace specification)
+    pub fn scan_client(&mut self, from: u32, limit: usize) -> bool {
+        let res = self.w.scan(&self.chain, from, limit);
+        let (c, e) = res_class(&res);
+        let post = self.post();
+        self.out.emit(&json!({"a": "scan", "client": true, "from": self.w.rel(from), "n": limit, "res": c, "err": e, "post": post}));
+        self.aborted |= c == "panic";
+        c == "ok"
     }
 
     // ---------------------------------------------------------------------------------------
